@@ -377,7 +377,7 @@ def main(argv=None):
         print("not reproduced")
         return 0
     quick = a.tier == "quick"
-    ev = common.Evidence(PROP, a.tier, a.seed, "fault_enumeration", "every corpus script x every backend call index k of the session (pilot run counts them) x error kind, plus 'every call of operation X fails'; a second session runs concurrently and is compared with its fault-free transcript; non-trivial = at least one backend call actually failed; distinct = distinct run digests")
+    ev = common.Evidence(PROP, a.tier, a.seed, "fault_enumeration", "every corpus script x every backend call index k of the session (pilot run counts them) x error kind, plus 'every call of operation X fails'; a second session runs concurrently and is compared with its fault-free transcript; non-trivial = at least one backend call actually failed; distinct = distinct run digests Plus a step-granular stagger sweep: the next command line arrives k = 0..39 loop steps after the command whose j-th backend call fails.")
     rep = common.Reporter(PROP, ev)
     names = sorted(corpus.scripts())
     r = random.Random(a.seed)
